@@ -257,8 +257,13 @@ func (m *moduleEngine) ResolveImportedFunction(index, descFunc, indexInImportedM
 	binary.LittleEndian.PutUint64(m.opaque[moduleCtxOffset:], uint64(uintptr(unsafe.Pointer(importedME.opaquePtr))))
 	binary.LittleEndian.PutUint64(m.opaque[typeIDOffset:], uint64(typeID))
 
-	// Write importedFunction so that it can be used by NewFunction.
-	m.importedFunctions[index] = importedFunction{me: importedME, indexInModule: indexInImportedModule}
+	// Write importedFunction so that it can be used by NewFunction and by the recursion above when this import is
+	// re-exported: both take an index in the function index space of importedME, i.e. including its imports
+	// (indexInImportedModule was turned into a local index above).
+	m.importedFunctions[index] = importedFunction{
+		me:            importedME,
+		indexInModule: indexInImportedModule + wasm.Index(len(importedME.importedFunctions)),
+	}
 }
 
 // ResolveImportedMemory implements wasm.ModuleEngine.
